@@ -517,7 +517,24 @@ def main(prop, argv=None):
         rng = random.Random(seed * 1000003 + int(hashlib.sha1(pid.encode()).hexdigest()[:6], 16))
         cases = list(prop.corpus()) + list(prop.gen(rng, args.tier))
         failures, stats = evaluate(prop, cases)
-        extra_cov, extra_fail = prop.extra(rng, args.tier)
+        try:
+            extra_cov, extra_fail = prop.extra(rng, args.tier)
+        except Exception as e:
+            # an exception whose innermost frame is MTfit's own code (the implementation raised on an input of the property's domain, as in
+            # the per-case 'raises' failures) is a failure of the property on that input; anything else is an error of the harness
+            tb = traceback.extract_tb(sys.exc_info()[2])
+            hdir = os.path.dirname(os.path.abspath(__file__))
+            last_h = max([i for i, fr in enumerate(tb) if os.path.abspath(fr.filename).startswith(hdir)] or [-1])
+            below = [fr for fr in tb[last_h + 1:] if os.path.abspath(fr.filename).startswith(os.path.abspath(REPO_SRC))]
+            if not below or not os.path.abspath(tb[last_h + 1].filename).startswith(os.path.abspath(REPO_SRC)):
+                raise
+            tb = [below[-1]]
+            inner = os.path.abspath(tb[-1].filename)
+            traceback.print_exc()
+            extra_cov = {}
+            extra_fail = [Failure('property', {'kind': 'whole-run-check-raised', 'where': '%s:%s' % (inner, tb[-1].lineno)},
+                                  'a whole-run check of this property could not be evaluated: MTfit raised %s: %s at %s:%s (%s)'
+                                  % (type(e).__name__, e, os.path.relpath(inner, REPO), tb[-1].lineno, tb[-1].name), key='whole-run-check-raised')]
         failures.extend(extra_fail)
     except subprocess.TimeoutExpired as e:
         print('TIMEOUT %r' % e)
